@@ -231,6 +231,8 @@ def case_shapes(case):
         out.add("C18-F11")
     if case["style"] != "none" and not case.get("closed") and _SPLIT_RE.search(chars):
         out.add("C18-F20")
+    if case["style"] != "none" and not case.get("closed") and _lexmsg_shape(chars):
+        out.add("C18-F6")        # the content of a still-open quote is tokenised word by word
     if case.get("closed") and not dirpart and case["name"][:case["k"]] in (".", ".."):
         out.add("C18-F14")
     if case.get("closed") and not case.get("subdir") and not STYLES[case["style"]][2] and (
@@ -435,6 +437,9 @@ def _classify_a(case, info, cand, got, kind):
             stripped.endswith(cand_q * 3) and len(stripped) >= 6:
         return "C18-F10"
     if "C18-F6" in shapes and not cand_q and isinstance(got, list) and any(_LEXMSG in a for call in got for a in call):
+        return "C18-F6"
+    if "C18-F6" in shapes and case["style"] != "none" and not case.get("closed") and cand and cand[1] < info["cursor"] - 4 \
+            and kind in ("line-error", "argv-shape", "names-nothing"):
         return "C18-F6"
     if "C18-F12" in shapes and cand_raw and kind in ("names-nothing", "target-lost", "ambiguous") and re.search(r"\\[ntrfv]", text):
         return "C18-F12"
